@@ -380,7 +380,10 @@ class Executor:
             req = self.reqs[rid] = dict(rid=rid, cid=cid, target=target, func=func, sig=list(sig), g=None, stage="new", ctx=ctx,
                                         params=self.ctx_params.get(cid),
                                         prior=list(self.ctx_hist[cid]), interleaved=False)
-            fn = lambda: ctx.trace(get_func(fa, func), *decode_sig(sig))  # noqa: E731
+            tkw = {}
+            if (self.ctx_params.get(cid) or {}).get("__override_name__"):
+                tkw["override_name"] = func.replace(":", "_") + "_renamed"
+            fn = lambda: ctx.trace(get_func(fa, func), *decode_sig(sig), **tkw)  # noqa: E731
             self.guarded(req, "traced", fn, fault)
             if req["stage"] == "traced":
                 self.ctx_hist[cid].append(req_key(req))
@@ -391,6 +394,7 @@ class Executor:
             return
         tm = getattr(fa.targets, req["target"])
         g = req["g"]
+        pipeline = (req.get("params") or {}).get("__pipeline__")
         if op == "expand":
             if req["stage"] != "traced":
                 return
@@ -398,6 +402,12 @@ class Executor:
                 self.bump(self.probes, "rewrite_with_deep_first_false")
                 req["topdown"] = True
                 self.guarded(req, "expanded", lambda: g.rewrite(tm, deep_first=False), fault)
+            elif pipeline == "legacy":
+                # what results/update.py calls: the deprecated aliases (they go through the warn-once cache)
+                self.guarded(req, "expanded", lambda: g.implement_missing(tm), fault)
+            elif pipeline == "combined":
+                # what the tests call: both modifiers in one rewrite call
+                self.guarded(req, "expanded", lambda: g.rewrite(tm, fa.rewrite), fault)
             else:
                 self.guarded(req, "expanded", lambda: g.rewrite(tm), fault)
         elif op == "simplify":
@@ -405,6 +415,10 @@ class Executor:
                 return
             if len(a) > 2 and a[2] == "top-down":
                 self.guarded(req, "simplified", lambda: g.rewrite(fa.rewrite, deep_first=False), fault)
+            elif pipeline == "legacy":
+                self.guarded(req, "simplified", lambda: g.simplify(), fault)
+            elif pipeline == "combined":
+                req["stage"] = "simplified"  # already done by the combined call
             else:
                 self.guarded(req, "simplified", lambda: g.rewrite(fa.rewrite), fault)
         elif op == "print":
